@@ -33,18 +33,58 @@ def harness_error(msg):
     sys.exit(2)
 
 
-def build():
+def variant_bin(variant):
+    if not variant:
+        return BIN
+    return os.path.join(VERIF, "target", "lazy-" + variant, "release", "lazysim")
+
+
+def build(variant=None):
+    """variant: None (default features of the arkworks build + the minimal build) or the name of one more crate
+    feature to switch on (separate target directory)."""
     env = dict(os.environ, CARGO_NET_OFFLINE="true")
     r = subprocess.run([sys.executable, os.path.join(LAZY, "gen_shadow.py")], capture_output=True, text=True)
     if r.returncode != 0:
         harness_error("gen_shadow.py failed: " + r.stderr)
-    log = os.path.join(VERIF, "logs", "build-lazysim.log")
+    log = os.path.join(VERIF, "logs", "build-lazysim%s.log" % ("-" + variant if variant else ""))
+    cmd = ["cargo", "build", "--release", "--offline", "-p", "lazysim"]
+    if variant:
+        cmd += ["--features", "decaf377/" + variant, "--target-dir", os.path.join(VERIF, "target", "lazy-" + variant)]
     with open(log, "w") as f:
-        r = subprocess.run(["cargo", "build", "--release", "--offline", "-p", "lazysim"], cwd=LAZY, env=env,
-                           stdout=f, stderr=subprocess.STDOUT)
+        r = subprocess.run(cmd, cwd=LAZY, env=env, stdout=f, stderr=subprocess.STDOUT)
     if r.returncode != 0:
         tail = open(log).read()[-3000:]
-        harness_error("building lazysim against /repo failed; see %s\n%s" % (log, tail))
+        harness_error("building lazysim%s against /repo failed; see %s\n%s" % (" (feature %s)" % variant if variant else "", log, tail))
+
+
+# Crate features the two standing builds do not switch on. The pinned sources contain no code conditional on
+# them (they only forward to dependencies). If such code appears, the quick tier also builds and runs that variant.
+BASE_FEATURES = {"arkworks", "r1cs", "std", "alloc", "default"}
+
+
+def feature_conditional_code():
+    import re
+    repo = os.environ.get("REPO", REPO_DEFAULT)
+    found = set()
+    for root, _, files in os.walk(os.path.join(repo, "src")):
+        for fn in files:
+            if not fn.endswith(".rs"):
+                continue
+            try:
+                text = open(os.path.join(root, fn), errors="replace").read()
+            except OSError:
+                continue
+            for m in re.finditer(r'feature\s*=\s*"([A-Za-z0-9_\-]+)"', text):
+                if m.group(1) not in BASE_FEATURES:
+                    found.add(m.group(1))
+    declared = set()
+    try:
+        manifest = open(os.path.join(repo, "Cargo.toml")).read()
+        feats = manifest.split("[features]", 1)[1].split("\n[", 1)[0]
+        declared = set(re.findall(r'(?m)^([A-Za-z0-9_\-]+)\s*=', feats))
+    except Exception:
+        pass
+    return sorted(f for f in found if f in declared)
 
 
 def invariant_of(msg):
@@ -72,7 +112,11 @@ def run_children(jobs, workdir, par=16, timeout=None):
             out = os.path.join(workdir, "child%04d.json" % idx)
             sdir = os.path.join(workdir, "sched%04d" % idx)
             os.makedirs(sdir, exist_ok=True)
-            cmd = [BIN, "--scheduler", j["scheduler"], "--seed", str(j["seed"]), "--iters", str(j["iters"]),
+            cmd = []
+            if j.get("cpus"):
+                # restricted affinity: std::thread::available_parallelism() and thread pools see this many cores
+                cmd = ["taskset", "-c", "0-%d" % (j["cpus"] - 1)]
+            cmd += [variant_bin(j.get("variant")), "--scheduler", j["scheduler"], "--seed", str(j["seed"]), "--iters", str(j["iters"]),
                    "--threads", str(j["threads"]), "--ops", str(j["ops"]), "--out", out, "--schedule-dir", sdir,
                    "--stack", str(j.get("stack", 0x40000))]
             if j.get("preflight"):
@@ -132,9 +176,10 @@ def minimise(job, inv, workdir):
     return best
 
 
-def replay_schedule(path, threads, ops):
-    r = subprocess.run([BIN, "--replay-schedule", path, "--threads", str(threads), "--ops", str(ops)],
-                       capture_output=True, text=True)
+def replay_schedule(path, threads, ops, variant=None, cpus=None):
+    cmd = ["taskset", "-c", "0-%d" % (cpus - 1)] if cpus else []
+    cmd += [variant_bin(variant), "--replay-schedule", path, "--threads", str(threads), "--ops", str(ops)]
+    r = subprocess.run(cmd, capture_output=True, text=True)
     return r.returncode, r.stdout.strip()
 
 
@@ -276,6 +321,8 @@ def main():
             sys.exit(0)
         if rp.get("engine") == "lazysim-crash":
             build()
+            if rp["job"].get("variant"):
+                build(rp["job"]["variant"])
             wd = os.path.join(VERIF, "logs", "lazy-replay")
             shutil.rmtree(wd, ignore_errors=True)
             os.makedirs(wd)
@@ -295,8 +342,10 @@ def main():
             print("replay of %s: Miri completes without this diagnostic on this tree" % replay)
             sys.exit(0)
         build()
+        if rp.get("variant"):
+            build(rp["variant"])
         sched = os.path.join(os.path.dirname(os.path.abspath(replay)), rp["schedule_file"])
-        rc, out = replay_schedule(sched, rp["threads"], rp["ops"])
+        rc, out = replay_schedule(sched, rp["threads"], rp["ops"], rp.get("variant"), rp.get("cpus"))
         print(out)
         if rc == 1:
             print("VIOLATION property=C09 replay=%s" % replay)
@@ -327,6 +376,26 @@ def main():
                          # thread with little stack must work: the tables live on the heap)
                          stack=0x10000 if k % 4 == 3 else 0x40000,
                          preflight=(k == 0)))
+    # configuration variants: other crate features, fewer visible cores
+    variants = feature_conditional_code()
+    if variants:
+        print("note: the crate has code conditional on feature(s) %s that neither standing build switches on; "
+              "building and running those variants as well" % ", ".join(variants))
+    if tier == "thorough" and "parallel" not in variants:
+        variants.append("parallel")
+    ncpu = os.cpu_count() or 4
+    for v in variants:
+        build(v)
+        for k, cpus in enumerate([c for c in (3, 5, 6, 7, 1, ncpu) if c <= ncpu]):
+            s, val = splitmix(s)
+            jobs.append(dict(scheduler="random" if k % 2 == 0 else "pct", seed=val & 0x7FFFFFFFFFFFFFFF,
+                             iters=max(100, iters // 4), threads=[2, 3, 4][k % 3], ops=[2, 3, 1][k % 3],
+                             stack=0x40000, preflight=False, variant=v, cpus=cpus))
+    # the standing build under restricted affinity too (anything sized by the number of visible cores)
+    for k, cpus in enumerate([c for c in (3, 1) if c <= ncpu]):
+        s, val = splitmix(s)
+        jobs.append(dict(scheduler="random" if k % 2 == 0 else "pct", seed=val & 0x7FFFFFFFFFFFFFFF,
+                         iters=max(100, iters // 4), threads=3, ops=2, stack=0x40000, preflight=False, cpus=cpus))
     par = os.cpu_count() or 4
     # a healthy child completes 25 executions (one heartbeat) in about 0.15 s, far less even on a heavily loaded
     # machine; one that shows no heartbeat for two minutes is not making progress
@@ -414,8 +483,9 @@ def main():
         replay_path = os.path.join(VERIF, "replays", name + ".json")
         json.dump(dict(engine="lazysim", property="C09", invariant=inv, detail=res["failure"], seed=seed,
                        scheduler=j["scheduler"], child_seed=j["seed"], threads=j["threads"], ops=j["ops"],
+                       variant=j.get("variant"), cpus=j.get("cpus"),
                        schedule_file=os.path.basename(dst)), open(replay_path, "w"), indent=1)
-        rc, out = replay_schedule(dst, j["threads"], j["ops"])
+        rc, out = replay_schedule(dst, j["threads"], j["ops"], j.get("variant"), j.get("cpus"))
         if rc != 1:
             harness_error("replay of %s did not reproduce in a fresh process (rc=%d): %s" % (dst, rc, out))
         print(out)
@@ -484,6 +554,9 @@ def main():
             "shuttle_children_without_progress": len(hung),
             "lazy_cells_seen_by_stand_in": cells_seen,
             "raw_synchronisation_constructs_in_crate": raw[:10],
+            "configuration_variants": {"extra_feature_builds": variants,
+                                       "children_under_restricted_affinity": sum(1 for j in jobs if j.get("cpus")),
+                                       "visible_core_counts": sorted(set(j["cpus"] for j in jobs if j.get("cpus")))},
             "simulated_time_note": "no clock in the crate; simulated time is the number of scheduling decisions (sim_steps)",
             "known_findings_seen": [],
         },
